@@ -35,6 +35,7 @@ META = {
         "message at every event; every taken valid message has started in every quiescent state with "
         "nothing in processing and no pending wake-up, and at return of listen(); junk never starts. "
         "distinct_nontrivial = distinct terminal per-message event logs."
+        " Fault-overlap family (mc/fault_overlap.py): message X suffers one fault out of {pre_execute/post_execute/post_save/on_error hook, sync or async ack, result backend} x {RuntimeError, CancelledError, TimeoutError}, backend failing once, body raise/CancelledError/timeout/no-result, malformed/unknown message, broker stream error, while the healthy message Y has suspension points before, inside and after its function and the stop request may arrive at any point; Y (and X where the fault does not prevent it) is invoked exactly once and listen() does not return while a taken message still waits to be invoked (W=None)."
     ),
     "assumptions": [
         "asyncio semantics as implemented by BaseEventLoop (the loop is a subclass; only clock/selector are replaced)",
@@ -89,6 +90,24 @@ def scenarios(tier: str) -> List[Dict[str, Any]]:
     for w in l2_words:
         for (a, p, n) in l2_cfg:
             out.append({"A": a, "P": p, "N": n, "stream": "infinite", "stop": True, "msgs": _msgs(w), "level": 2})
+    out += fault_family(tier)
+    return out
+
+
+def fault_family(tier: str) -> List[Dict[str, Any]]:
+    """One fault in message X (hook / ack / backend raising RuntimeError, CancelledError or TimeoutError, body
+    outcomes, junk, broker stream error) while the healthy message Y is in flight, with a stop request or a
+    max-tasks recycle at any point (mc/fault_overlap.py). The subject is Y: exactly one invocation, not
+    abandoned by a worker that returns early. X's own invocation is not demanded (a failing pre_execute hook
+    or when_received ack legitimately prevents it) but it must not be invoked twice."""
+    from mc import fault_overlap as fo
+
+    out = []
+    for n in (None, 2):
+        for at in (None, "when_received"):
+            for sc in fo.family(tier, ack_types=(at,), a=3, n=n, orders=(True, False) if (tier == "thorough" or (n is None and at is None)) else (True,)):
+                sc["relax_x"] = True
+                out.append(sc)
     return out
 
 
